@@ -47,7 +47,7 @@ claimed.update({
     "C09": dict(text="CreateCertificate binds SANs to exactly the authenticated identities (or the single impersonated identity after the node authorizer accepted it), never to CSR text or other metadata, ForCA is never set, "
                      "unauthenticated callers never reach the signer; the per-cluster impersonation gate accepts only trusted callers whose pod exists with matching UID/SA and only identities running on the caller's node; "
                      "the OIDC authenticator never crashes on any verified subject and derives the identity only from a well-formed system:serviceaccount:ns:sa subject with a matching audience.",
-                note="Outside: X.509/ASN.1/PEM/crypto, token signature verification, TTL clamping (IstioCA.sign) unless listed in the evidence.", ref="§4 C09"),
+                note="Also: validity arithmetic of the issued certificate (genCertTemplateFromCSR): never beyond the signing certificate's expiry, never longer than requested, nothing issued by an expired signer. Outside: X.509/ASN.1/PEM/crypto, token signature verification, MaxCertTTL/default TTL selection.", ref="§4 C09"),
     "C13": dict(text="Endpoint index: sequential specification (per service and registry shard the index holds exactly the last report; nothing remains of removed shards/services/registries, service accounts included) "
                      "for every operation sequence inside the bound, and linearizability of a report against a concurrent delete / registry removal / prune under every interleaving (<= 3 pre-emptions): the report is never lost.",
                 note="Outside: locality weighting, load balancing, network gateways, EDS generation from the index.", ref="§4 C13"),
